@@ -18,6 +18,30 @@ func (x *FnExec) newFrame(fn *ssa.Function, spec *FuncSpec, params, free []Val, 
 	x.frameN++
 	fr := &frame{fn: fn, params: params, free: free, spec: spec, depth: depth, callOrd: map[string]int{}, tag: fmt.Sprintf("f%d", x.frameN)}
 	fr.loops, fr.loopOf = analyzeLoops(fn, spec)
+	// call-site ordinals in source (block, instruction) order — independent of the order blocks are processed in
+	fr.siteOrd = map[ssa.Instruction]int{}
+	var sites []ssa.Instruction
+	for _, b := range fn.Blocks {
+		for _, in := range b.Instrs {
+			if _, ok := in.(ssa.CallInstruction); ok {
+				sites = append(sites, in)
+			}
+		}
+	}
+	// source order (position), falling back to block order for synthetic calls without a position
+	sort.SliceStable(sites, func(i, j int) bool {
+		pi, pj := sites[i].Pos(), sites[j].Pos()
+		if pi.IsValid() && pj.IsValid() && pi != pj {
+			return pi < pj
+		}
+		return false
+	})
+	cnt := map[string]int{}
+	for _, in := range sites {
+		k := calleeKey(in.(ssa.CallInstruction).Common())
+		cnt[k]++
+		fr.siteOrd[in] = cnt[k]
+	}
 	return fr
 }
 
